@@ -74,6 +74,12 @@ def make_dist(kind, n, seed, arg=None):
         N[:] = 1.0
     elif kind == 'neg':
         N = r.normal(0, 10, n)
+    elif kind == 'undershoot':
+        # a physical bump with a few classes driven below zero (tiny round-off sized and large undershoots)
+        mu = r.uniform(0.05, 0.95) * n; sd = max(0.6, r.uniform(0.02, 0.2) * n)
+        N = 10 ** r.uniform(2, 20) * np.exp(-0.5 * ((np.arange(n) - mu) / sd) ** 2)
+        for j in r.integers(0, n, size=max(1, n // 6)):
+            N[j] = -10 ** r.uniform(-18, 17)
     return np.asarray(N, dtype=float)
 
 
@@ -125,6 +131,10 @@ def gen_recipe(rng, stream):
             rng.choice(['bump', 'lastfull', 'lastfull'] if stream == 'kwn-growth' else ['lowbump', 'lowbump', 'isolated', 'single'])
         if stream == 'malformed' and rng.random() < 0.12:
             return ['update', 'badlen', s]
+        # UpdatePBMEuler accepts ANY new density (an explicit step above the stability limit, a user iterator, round-off
+        # undershoots): entries below one particle, negative ones included, are dropped - part of the valid stream
+        if rng.random() < 0.15:
+            d = rng.choice(['neg', 'undershoot', 'undershoot'])
         return ['update', d, s]
     if c == 'setpsd':
         if stream == 'malformed' and rng.random() < 0.25:
